@@ -63,6 +63,25 @@ static int write_entry(sqfs_dir_iterator_t *it, const sqfs_dir_entry_t *ent)
 		return ret;
 	}
 
+	/*
+	  The tar reader builds its xattr list back to front. Emit the
+	  records in reverse order, so converting the archive back yields
+	  the key/value pairs in the order they are stored in here.
+	*/
+	if (xattr != NULL) {
+		sqfs_xattr_t *rev = NULL;
+
+		while (xattr != NULL) {
+			sqfs_xattr_t *next = xattr->next;
+
+			xattr->next = rev;
+			rev = xattr;
+			xattr = next;
+		}
+
+		xattr = rev;
+	}
+
 	ret = write_tar_header(out_file, ent, target, xattr, record_counter++);
 	if (ret)
 		sqfs_perror(ent->name, "writing tar header", ret);
